@@ -55,7 +55,9 @@ IsDelegated(s) == s \in {"d", "d1", "d2", "d3"}
 \* rules : id |-> [ct, vu, name, signers (set), pols (set)]   the rules that exist
 \* maxid : largest id ever handed out (-1: none)
 \* pol   : p |-> [k, rf]  behaviour configured for the policy collaborators
-GInit == [rules |-> <<>>, maxid |-> -1, pol |-> <<>>]
+\* gone  : <<type, signers, policies>> triples some rule once had and, at that time, ceased to have
+GInit == [rules |-> <<>>, maxid |-> -1, pol |-> <<>>, gone |-> {}]
+FpOf(r) == <<r.ct, r.signers, r.pols>>
 
 PolCfg(g, p) == IF p \in DOMAIN g.pol THEN g.pol[p] ELSE [k |-> 0, rf |-> FALSE]
 Has(g, id) == id \in DOMAIN g.rules
@@ -72,13 +74,13 @@ GNext(g, ev) ==
                                                               signers |-> ToSet(o.signers), pols |-> o.pols]) @@ g.rules,
                                         !.maxid = MaxOf(g.maxid, ev.ret)]
     [] ~Has(g, o.id)       -> g
-    [] o.op = "rm_rule"    -> [g EXCEPT !.rules = Without(g.rules, o.id)]
+    [] o.op = "rm_rule"    -> [g EXCEPT !.rules = Without(g.rules, o.id), !.gone = @ \cup {FpOf(g.rules[o.id])}]
     [] o.op = "upd_name"   -> [g EXCEPT !.rules[o.id].name = o.name]
     [] o.op = "upd_vu"     -> [g EXCEPT !.rules[o.id].vu = o.vu]
-    [] o.op = "add_signer" -> [g EXCEPT !.rules[o.id].signers = @ \cup {o.s}]
-    [] o.op = "rm_signer"  -> [g EXCEPT !.rules[o.id].signers = @ \ {o.s}]
-    [] o.op = "add_policy" -> [g EXCEPT !.rules[o.id].pols = @ \cup {o.p}]
-    [] o.op = "rm_policy"  -> [g EXCEPT !.rules[o.id].pols = @ \ {o.p}]
+    [] o.op = "add_signer" -> [g EXCEPT !.rules[o.id].signers = @ \cup {o.s}, !.gone = @ \cup {FpOf(g.rules[o.id])}]
+    [] o.op = "rm_signer" -> [g EXCEPT !.rules[o.id].signers = @ \ {o.s}, !.gone = @ \cup {FpOf(g.rules[o.id])}]
+    [] o.op = "add_policy" -> [g EXCEPT !.rules[o.id].pols = @ \cup {o.p}, !.gone = @ \cup {FpOf(g.rules[o.id])}]
+    [] o.op = "rm_policy" -> [g EXCEPT !.rules[o.id].pols = @ \ {o.p}, !.gone = @ \cup {FpOf(g.rules[o.id])}]
     [] OTHER               -> g
 
 (* what the property says about a check -------------------------------------*)
@@ -157,6 +159,24 @@ AtLimit(g, o, now) ==
        [] o.op = "add_policy" -> Cardinality(g.rules[o.id].pols) = LimPolicies - 1
        [] OTHER               -> FALSE
 
+\* the rule that this call would create or produce; <<>> when the call names no existing rule
+Target(g, o) ==
+  CASE o.op = "add_rule"   -> <<o.ct, ToSet(o.signers), o.pols>>
+    [] ~Has(g, o.id)       -> <<>>
+    [] o.op = "add_signer" -> <<g.rules[o.id].ct, g.rules[o.id].signers \cup {o.s}, g.rules[o.id].pols>>
+    [] o.op = "rm_signer"  -> <<g.rules[o.id].ct, g.rules[o.id].signers \ {o.s}, g.rules[o.id].pols>>
+    [] o.op = "add_policy" -> <<g.rules[o.id].ct, g.rules[o.id].signers, g.rules[o.id].pols \cup {o.p}>>
+    [] o.op = "rm_policy"  -> <<g.rules[o.id].ct, g.rules[o.id].signers, g.rules[o.id].pols \ {o.p}>>
+    [] OTHER               -> <<>>
+\* re-adding what was removed: the call re-creates a (type, signers, policies) combination that existed before,
+\* exists no more, and nothing documented speaks against it
+ReAdd(g, o, now) ==
+  /\ o.op \in {"add_rule", "add_signer", "rm_signer", "add_policy", "rm_policy"}
+  /\ Target(g, o) \in g.gone
+  /\ ~Over(g, o) /\ ~MustRefuse(g, o)
+  /\ Target(g, o)[2] # {} \/ Target(g, o)[3] # {}
+  /\ o.op = "add_rule" => (o.vu = NoVu \/ o.vu >= now)
+
 NameOk(gn, on) == gn = "*" \/ gn = on
 
 \* every getter answers as the map `rules`
@@ -180,9 +200,9 @@ QueryOk(rules, obs) ==
 
 (* monitors ---------------------------------------------------------------*)
 Monitors == {"C03_sound", "C03_precedence", "C03_signers_scope", "C03_enforce_log", "C03_complete",
-             "C20_rules_query", "C20_rules_refuse", "C20_rules_capacity", "C20_rules_fresh_id"}
+             "C20_rules_query", "C20_rules_refuse", "C20_rules_capacity", "C20_rules_fresh_id", "C20_rules_readd"}
 
-PropOf(m) == IF m \in {"C20_rules_query", "C20_rules_refuse", "C20_rules_capacity", "C20_rules_fresh_id"}
+PropOf(m) == IF m \in {"C20_rules_query", "C20_rules_refuse", "C20_rules_capacity", "C20_rules_fresh_id", "C20_rules_readd"}
              THEN "C20" ELSE "C03"
 
 \* every monitor is  Ante => Cons ; d = Derived(g, ev)
@@ -197,6 +217,7 @@ AnteD(m, g, ev, d) ==
     [] m = "C20_rules_refuse"   -> ~chk /\ MustRefuse(g, o)
     [] m = "C20_rules_capacity" -> ~chk /\ (Over(g, o) \/ AtLimit(g, o, ev.now))
     [] m = "C20_rules_fresh_id" -> IsAdd(o) /\ ok
+    [] m = "C20_rules_readd"    -> ~chk /\ ReAdd(g, o, ev.now)
 
 ConsD(m, g, ev, d) ==
   LET o == ev.op  ok == ev.res = "ok" IN
@@ -226,6 +247,7 @@ ConsD(m, g, ev, d) ==
     [] m = "C20_rules_refuse"   -> ~ok
     [] m = "C20_rules_capacity" -> IF Over(g, o) THEN ~ok ELSE ok
     [] m = "C20_rules_fresh_id" -> ev.ret > g.maxid /\ ev.ret >= 0
+    [] m = "C20_rules_readd"    -> ok
 
 Ante(m, g, ev) == AnteD(m, g, ev, Derived(g, ev))
 Cons(m, g, ev) == ConsD(m, g, ev, Derived(g, ev))
